@@ -130,6 +130,8 @@ def gen_kw(rng, h, name, state, depth):
         kw["algs"] = rng.choice(["sha-1,sha-256", "sha-1", ["sha-1", "sha-512", "md5"], "sha-256"])
     if "marker" in sk and rng.random() < 0.5:
         kw["marker"] = rng.choice(["*", "!", "*locked*", "x"])
+    if name == "cisco_type7" and rng.random() < 0.5:
+        kw["salt"] = rng.choice([-7, -1, 0, 1, 9, 15, 16, 51, 52, 53, 99])
     if rng.random() < 0.3:
         kw["relaxed"] = True
     return kw
@@ -187,6 +189,13 @@ def model_step(h0, name, state, kw):
         if kw["marker"] == "x" or not kw["marker"]:
             raise W.Refused("marker")
         st["marker"] = kw["marker"]
+    if name == "cisco_type7" and "salt" in kw:
+        v = kw["salt"]
+        if v < 0 or v > 52:                      # documented range of the key offset: 0..52
+            if not relaxed:
+                raise W.Refused("salt outside 0..52")
+            v = 0 if v < 0 else 52
+        st["salt_value"] = v
     if name == "bcrypt_sha256" and st.get("version", 2) == 2 and st.get("ident") == "$2a$":
         raise W.Refused("bcrypt-sha256 v2 requires 2b")
     return st
@@ -268,7 +277,7 @@ def pos_class(v, lo, hi, hmin, hmax):
     return "in-range"
 
 
-def chain(run, rng, name):
+def chain(run, rng, name, forced=None):
     import passlib.hash as PH
     import passlib.exc as X
     h0 = H.get(name)
@@ -280,8 +289,15 @@ def chain(run, rng, name):
     state.update(salt_size=getattr(h0, "default_salt_size", None), ident=getattr(h0, "default_ident", None), truncate_error=getattr(h0, "truncate_error", None))
     depth = 0
     path = []
+    step = 0
     while depth < 4:
-        kw = gen_kw(rng, h0, name, state, depth)
+        if forced is not None:
+            if step >= len(forced):
+                break
+            kw = dict(forced[step])
+        else:
+            kw = gen_kw(rng, h0, name, state, depth)
+        step += 1
         path.append(kw)
         w = dict(hasher=name, chain=[dict(k) for k in path])
         rp = "import warnings; warnings.simplefilter('ignore')\nimport passlib.hash as H\nh = H." + name + "".join(f".using(**{k!r})" for k in path) + "\nprint(h.hash('pw'))"
@@ -358,6 +374,12 @@ def observable_break(run, name, h0, child, refused, kw):
         return None   # refused at hash time instead: acceptable
     except Exception as e:
         return f"hash() raised {type(e).__name__}"
+    # whatever was accepted, the hash the derived hasher makes must be one the format itself understands
+    try:
+        if not h0.identify(hs) or not h0.verify(PW, hs, **ctx_kw(h0)):
+            return f"produced {hs[:48]!r}, which the format itself does not identify / verify"
+    except (ValueError, TypeError) as e:
+        return f"produced {hs[:48]!r}, which the format itself rejects ({type(e).__name__}: {str(e)[:60]})"
     if "rounds" in h0.setting_kwds and name in CHEAP:
         c = cost_of(name, h0, hs)
         if c < h0.min_rounds or (h0.max_rounds is not None and c > h0.max_rounds):
@@ -366,7 +388,7 @@ def observable_break(run, name, h0, child, refused, kw):
             return f"its own fresh hash (cost {c}) needs updating"
     if "hard" in refused and not kw.get("relaxed"):
         return f"a value outside the hard limits was neither refused nor given relaxed=True ({refused})"
-    if refused in ("unknown ident", "unknown variant", "unknown version", "not a boolean", "sha-1 required"):
+    if refused in ("unknown ident", "unknown variant", "unknown version", "not a boolean", "sha-1 required", "bcrypt-sha256 v2 requires 2b"):
         return f"{refused}: produced {hs[:40]!r}"
     return None
 
@@ -387,6 +409,10 @@ def check_child(run, rng, name, h0, child, want, kw, w, rp, corpus, light=False)
             run.violation(f"C09|{name}|hash-raises|{type(e).__name__}", f"{name}: hasher derived with valid settings cannot hash: {type(e).__name__}: {str(e)[:100]}", w, rp)
             return
         p = parsed(h0, hs)
+        if want.get("salt_value") is not None:
+            run.count("pinned_offset_checks")
+            if hs[:2] != "%02d" % want["salt_value"]:
+                run.violation(f"C09|{name}|salt-offset-not-honoured", f"{name}: configured key offset {want['salt_value']} (chain {[k.get('salt') for k in w['chain']]}) but the hash starts with {hs[:2]!r}", dict(w, hash=hs), rp)
         if has_rounds:
             c = cost_of(name, h0, hs)
             if c < hd["min"] or (hd["max"] is not None and c > hd["max"]):
@@ -475,6 +501,27 @@ def work(run, names, n_chains):
                 run.violation(f"C09|{name}|harness-or-library-error|{type(e).__name__}", f"{name}: unexpected {type(e).__name__}: {str(e)[:120]}", dict(tb=traceback.format_exc()[-900:]))
 
 
+def directed(run, name):
+    """complete products of small setting spaces through two-step chains (each half alone is fine; the combination decides)"""
+    rng = run.rng("directed:" + name)
+    if name == "bcrypt_sha256":
+        A = [{}, {"version": 1}, {"version": 2}, {"ident": "$2a$"}, {"ident": "$2b$"}, {"version": 1, "ident": "$2a$"}, {"version": 1, "ident": "$2b$"}, {"version": 2, "ident": "$2b$"}, {"version": 2, "ident": "$2a$"}]
+        first = dict(default_rounds=4, max_rounds=5)
+    elif name == "cisco_type7":
+        A = [{"salt": v, **({"relaxed": True} if r else {})} for v in (-7, -1, 0, 15, 52, 53, 99) for r in (0, 1)] + [{}]
+        first = {}
+    else:
+        return
+    for a in A:
+        for b in A:
+            try:
+                chain(run, rng, name, forced=[dict(first, **a), b])
+                run.count("directed_chains")
+            except Exception as e:
+                import traceback
+                run.violation(f"C09|{name}|harness-or-library-error|{type(e).__name__}", f"{name}: unexpected {type(e).__name__}: {str(e)[:120]}", dict(tb=traceback.format_exc()[-900:]))
+
+
 def body(run):
     names = [n for n in H.names() if H.usable(n)]
     # hashers whose default cost is expensive and that have no cheap range are only taken through non-cost settings
@@ -485,6 +532,9 @@ def body(run):
     n_chains = 14 if run.tier == "quick" else 220
     order = sorted(use, key=lambda n: (("bcrypt" in n) + (n in CHEAP), n))
     run.parallel("checks.c09", "work", [dict(names=order[i::16], n_chains=n_chains) for i in range(16)], timeout=900 if run.tier == "quick" else 5400)
+    run.parallel("checks.c09", "directed", [dict(name="bcrypt_sha256"), dict(name="cisco_type7")], timeout=900)
+    run.require("directed_chains", 200)
+    run.require("pinned_offset_checks", 50)
     run.require("steps", 1500 if run.tier == "quick" else 20000)
     run.require("isolation_checks", 1000)
     run.require("truncate_policy_checks", 20)
